@@ -793,6 +793,7 @@ func genC10(c *Ctx) {
 	}
 	base = append(base, or(leaf("MIT"), leaf("LicenseRef-x")), or(leaf("LicenseRef-x"), leaf("MIT")))
 	base = append(base, confusableTrees()...)
+	base = append(base, scaleTrees(c.rng, false)[:12]...)
 	for _, t := range base {
 		K := 2
 		if c.thorough() {
